@@ -151,6 +151,12 @@ type respT struct {
 	T      TX  `json:"t"`
 }
 
+// secT is one WithSecurity call
+type secT struct {
+	Scheme string   `json:"s"`
+	Scopes []string `json:"c,omitempty"`
+}
+
 // extT is one specification extension: key and index into the payload pool
 type extT struct {
 	K string `json:"k"`
@@ -206,14 +212,17 @@ func dataPayload(i int) any {
 }
 
 type opT struct {
-	Ctor    string  `json:"c"` // GET, POST, …, TRACE, or "Op:<method>"
-	Path    string  `json:"p"`
-	Summary string  `json:"s,omitempty"`
-	Desc    string  `json:"d,omitempty"`
-	OpID    string  `json:"o,omitempty"`
-	Req     *TX     `json:"r,omitempty"`
-	Resps   []respT `json:"a,omitempty"`
-	Ext     []extT  `json:"x,omitempty"` // openapi.WithOperationExtension
+	Ctor    string   `json:"c"` // GET, POST, …, TRACE, or "Op:<method>"
+	Path    string   `json:"p"`
+	Summary string   `json:"s,omitempty"`
+	Desc    string   `json:"d,omitempty"`
+	OpID    string   `json:"o,omitempty"`
+	Req     *TX      `json:"r,omitempty"`
+	Resps   []respT  `json:"a,omitempty"`
+	Ext     []extT   `json:"x,omitempty"` // openapi.WithOperationExtension
+	Tags    []string `json:"t,omitempty"` // openapi.WithTags, one call per element group (see options)
+	Dep     bool     `json:"dep,omitempty"`
+	Sec     []secT   `json:"sec,omitempty"` // openapi.WithSecurity
 	// named examples (example.New) of the response with that status, by position in Resps
 	Ex map[int][]exT `json:"e,omitempty"`
 }
@@ -295,6 +304,19 @@ func (o *opT) options() []openapi.OperationOption {
 	for _, x := range o.Ext {
 		opts = append(opts, openapi.WithOperationExtension(x.K, payload(x.P)))
 	}
+	if len(o.Tags) > 0 {
+		// a composed option set contributes the first tag, the operation's own WithTags the rest
+		opts = append(opts, openapi.WithOptions(openapi.WithTags(o.Tags[0])))
+		if len(o.Tags) > 1 {
+			opts = append(opts, openapi.WithTags(o.Tags[1:]...))
+		}
+	}
+	if o.Dep {
+		opts = append(opts, openapi.WithDeprecated())
+	}
+	for _, x := range o.Sec {
+		opts = append(opts, openapi.WithSecurity(x.Scheme, x.Scopes...))
+	}
 	return opts
 }
 
@@ -313,6 +335,16 @@ func (c *caseT) apiOptions(validation bool) []openapi.Option {
 		opts = append(opts, openapi.WithInfoExtension(x.K, payload(x.P)))
 	}
 	return opts
+}
+
+func (c *caseT) carriesCollections() bool {
+	for i := range c.Ops {
+		o := &c.Ops[i]
+		if len(o.Tags) > 0 || len(o.Sec) > 0 || len(o.Ext) > 0 || len(o.Ex) > 0 {
+			return true
+		}
+	}
+	return false
 }
 
 // manyExtensions: some object of the case carries two or more extensions (their relative order is
@@ -377,6 +409,32 @@ func generate(c *caseT, validation bool) (res result) {
 		return result{kind: "E", cls: classify(err)}
 	}
 	return result{kind: "D", json: r.JSON}
+}
+
+// reuseStable: the SAME operation values (and the same API value) are handed to Generate again, as an
+// app does when a route is added after the specification was served: every generation must return
+// the bytes of the first one (Generate must not modify what the caller handed in).
+func reuseStable(c *caseT, want []byte) (ok bool) {
+	defer func() {
+		if p := recover(); p != nil {
+			ok = false
+		}
+	}()
+	var ops []openapi.Operation
+	for i := range c.Ops {
+		ops = append(ops, c.Ops[i].construct())
+	}
+	api := openapi.MustNew(c.apiOptions(false)...)
+	for k := 0; k < 3; k++ {
+		if k == 2 {
+			api = openapi.MustNew(c.apiOptions(false)...) // a second API over the same operation values
+		}
+		r, err := api.Generate(context.Background(), ops...)
+		if err != nil || !bytes.Equal(r.JSON, want) {
+			return false
+		}
+	}
+	return true
 }
 
 // ---------------------------------------------------------------------------------------------
@@ -1047,7 +1105,7 @@ func (e *encT) def(l *hx.Line, t reflect.Type) {
 		l.Tok("F")
 		str(l, f.Name)
 		l.Bool(f.IsExported())
-		for _, k := range []string{"json", "validate", "query", "path", "header", "cookie"} {
+		for _, k := range []string{"json", "validate", "query", "path", "header", "cookie", "default"} {
 			str(l, f.Tag.Get(k))
 		}
 		if !f.IsExported() && !f.Anonymous {
@@ -1243,6 +1301,13 @@ func emit(id string, c *caseT, st *hx.Stats) string {
 					ol.Bool(false)
 				}
 			}
+			ol.Strs(o.Tags)
+			ol.Bool(o.Dep)
+			ol.Nat(len(o.Sec))
+			for _, x := range o.Sec {
+				str(ol, x.Scheme)
+				ol.Strs(x.Scopes)
+			}
 		}
 	}()
 	if typeErr {
@@ -1287,6 +1352,11 @@ func emit(id string, c *caseT, st *hx.Stats) string {
 		for k := 0; k < reps && stable; k++ {
 			again := generate(c, false)
 			stable = again.kind == "D" && bytes.Equal(again.json, off.json)
+		}
+		// (every case whose operations carry slices or maps the generator might keep — tags, security,
+		// extensions, examples — and a third of the others)
+		if c.carriesCollections() || sha256.Sum256(off.json)[0]%3 == 0 {
+			stable = stable && reuseStable(c, off.json)
 		}
 		dataOK = dataIntact(c, off.json)
 		if stable && c.Exec {
@@ -1480,6 +1550,7 @@ func genTX(r *hx.Rand, d int) TX {
 	}
 }
 
+var defaultValues = []string{"5", "0", "42", "abc", "true", "false", "x", "007", "1", "T"}
 var dynNames = []string{"A", "B", "C", "Id", "Name", "Items", "Next", "When"}
 var dynJSON = []string{"id", "name", "a", "b", "items", "next"}
 var dynValidate = []string{"", "", "required", "required,email", "min=1,max=10", "gt=0,lte=9", "oneof=a b", "len=4",
@@ -1516,6 +1587,9 @@ func genStruct(r *hx.Rand, d int, req bool) TX {
 		if req && r.Chance(3, 5) {
 			loc := hx.Pick(r, []string{"query", "path", "path", "header", "cookie"})
 			tags = append(tags, fmt.Sprintf(`%s:"%s"`, loc, hx.Pick(r, params)))
+			if r.Chance(1, 3) {
+				tags = append(tags, fmt.Sprintf(`default:"%s"`, hx.Pick(r, defaultValues)))
+			}
 		} else {
 			switch r.Intn(8) {
 			case 0:
@@ -1619,7 +1693,70 @@ func genOp(r *hx.Rand) opT {
 	if r.Chance(1, 16) {
 		o.Ext = genExts(r)
 	}
+	if r.Chance(1, 4) {
+		for k, m := 0, r.Range(1, 4); k < m; k++ {
+			o.Tags = append(o.Tags, hx.Pick(r, []string{"users", "admin", "users", "orders", "a"})) // repeats are likely
+		}
+	}
+	o.Dep = r.Chance(1, 12)
+	if r.Chance(1, 6) {
+		for k, m := 0, r.Range(1, 2); k < m; k++ {
+			x := secT{Scheme: hx.Pick(r, []string{"bearerAuth", "oauth2", "apiKey"})}
+			if r.Chance(1, 2) {
+				x.Scopes = []string{"read", "write:users"}[:r.Range(1, 2)]
+			}
+			o.Sec = append(o.Sec, x)
+		}
+	}
+	// an option sequence that documents the same status twice: first with a sample value (single
+	// example), later refined with named examples, or the other way round
+	if len(o.Resps) > 0 && r.Chance(1, 8) {
+		k := r.Intn(len(o.Resps))
+		st := o.Resps[k].Status
+		named := []exT{{Name: "refined", P: r.Intn(len(payloadTexts))}}
+		if o.Ex == nil {
+			o.Ex = map[int][]exT{}
+		}
+		if r.Chance(1, 2) {
+			o.Resps[k].T = TX{K: "data", I: r.Intn(len(payloadTexts))}
+			o.Resps = append(o.Resps, respT{Status: st, T: TX{K: "corpus", I: r.Intn(len(corpus.Types))}})
+			o.Ex[len(o.Resps)-1] = named
+		} else {
+			o.Ex[k] = named
+			o.Resps = append(o.Resps, respT{Status: st, T: TX{K: "data", I: r.Intn(len(payloadTexts))}})
+		}
+	}
 	return o
+}
+
+// idsOf returns the operationIds of a produced document by (member, path key).
+func idsOf(js []byte) []string {
+	var root map[string]any
+	if json.Unmarshal(js, &root) != nil {
+		return nil
+	}
+	var out []string
+	paths, _ := root["paths"].(map[string]any)
+	keys := make([]string, 0, len(paths))
+	for k := range paths {
+		keys = append(keys, k)
+	}
+	sort.Strings(keys)
+	for _, k := range keys {
+		item, _ := paths[k].(map[string]any)
+		ms := make([]string, 0, len(item))
+		for m := range item {
+			ms = append(ms, m)
+		}
+		sort.Strings(ms)
+		for _, m := range ms {
+			op, _ := item[m].(map[string]any)
+			if id, _ := op["operationId"].(string); id != "" {
+				out = append(out, id)
+			}
+		}
+	}
+	return out
 }
 
 func genCase(r *hx.Rand) caseT {
@@ -1633,6 +1770,18 @@ func genCase(r *hx.Rand) caseT {
 	}
 	for i := 0; i < n; i++ {
 		c.Ops = append(c.Ops, genOp(r))
+	}
+	// an explicit operationId equal to the id another route generates (either visiting order)
+	if len(c.Ops) >= 2 && r.Chance(1, 10) {
+		if res := generate(&c, false); res.kind == "D" {
+			if ids := idsOf(res.json); len(ids) > 0 {
+				j := r.Intn(len(c.Ops))
+				c.Ops[j].OpID = hx.Pick(r, ids)
+				if c.Ops[j].Summary == "" {
+					c.Ops[j].Summary = "s" // WithOperationID only counts on a documented operation
+				}
+			}
+		}
 	}
 	if r.Chance(1, 12) {
 		c.RootExt = genExts(r)
@@ -1678,6 +1827,21 @@ func fixedCases() []caseT {
 			// K07b: time.Time example, generations 1.1 s apart and in a fresh process
 			caseT{V31: v31, Pause: true, Exec: true, Ops: []opT{{Ctor: "GET", Path: "/t", Resps: ok(TX{K: "struct",
 				F: []FX{{Name: "When", Tag: `json:"when"`, T: TX{K: "time"}}}})}}},
+			// repeated tags through a composed option set, deprecated, security with and without scopes
+			// (K07k), a path parameter with a default, an explicit id equal to a generated one
+			caseT{V31: v31, Ops: []opT{
+				{Ctor: "GET", Path: "/users/:id", Summary: "s", Tags: []string{"users", "users", "admin"}, Dep: true,
+					Sec: []secT{{Scheme: "bearerAuth"}, {Scheme: "oauth2", Scopes: []string{"read", "write:users"}}},
+					Req: &TX{K: "struct", F: []FX{{Name: "ID", Tag: `path:"id" default:"7"`, T: TX{K: "prim", P: "int"}},
+						{Name: "Q", Tag: `query:"q" default:"abc"`, T: TX{K: "prim", P: "int"}},
+						{Name: "B", Tag: `query:"b" default:"true"`, T: TX{K: "ptr", E: &TX{K: "prim", P: "bool"}}}}}},
+				{Ctor: "POST", Path: "/users", Summary: "s", Tags: []string{"users"}}}},
+			caseT{V31: v31, Ops: []opT{{Ctor: "GET", Path: "/users"}, {Ctor: "GET", Path: "/v2/users", Summary: "s", OpID: "getUsers"}}},
+			caseT{V31: v31, Ops: []opT{{Ctor: "GET", Path: "/v2/users"}, {Ctor: "GET", Path: "/a", Summary: "s", OpID: "getV2Users"}}},
+			// the same status documented twice: sample value then named examples, and the reverse
+			caseT{V31: v31, Ops: []opT{{Ctor: "GET", Path: "/r", Summary: "s",
+				Resps: []respT{{404, TX{K: "data", I: 1}}, {404, ct("pa.Item")}, {200, ct("pa.Item")}, {200, TX{K: "data", I: 5}}},
+				Ex:    map[int][]exT{1: {{"refined", "", 4}}, 2: {{"first", "s", 0}}}}}},
 			// literal data: several extensions on the root, the info object and an operation; example
 			// payloads that look like schemas / references (they are data: validation must accept them,
 			// reference resolution must not look into them, their bytes must be stable)
